@@ -91,94 +91,16 @@ func c03R1(p *core.Prog, r *core.Report, trav *ssa.Function) {
 	}
 	// the copy: results feed goroutines
 	name := p.FuncName(trav)
+	// forward data flow from the getter's result into the descriptor argument of a copy call (the
+	// traversal itself or the blob copy), through range elements, captured variables and helpers
 	feeds := func(g *ssa.Call) bool {
-		ok := false
-		for _, b := range trav.Blocks {
-			for _, in := range b.Instrs {
-				gi, isGo := in.(*ssa.Go)
-				if !isGo {
-					continue
-				}
-				// (a) started inside a range loop over the getter's result
-				for _, l := range core.Loops(trav) {
-					if !l.Blocks[b] {
-						continue
-					}
-					if rv, isRange := l.IsRange(); isRange {
-						for _, oc := range originCalls(rv) {
-							if oc == g {
-								ok = true
-							}
-						}
-						// ranged value may be a filtered copy of the list (descList built from rl.Descriptors)
-						for _, o := range core.Origins(rv, core.SliceOpts{FieldsThrough: true}) {
-							if o.Kind == core.OCall && o.Call == g {
-								ok = true
-							}
-						}
-					}
-				}
-				// (b) a descriptor handed to a copy call inside the closure comes from the getter
-				lit := closureOf(gi.Call.Value)
-				if lit == nil {
-					continue
-				}
-				core.Calls(lit, func(c ssa.CallInstruction) {
-					gfn := core.CalleeFn(c)
-					if gfn == nil || (gfn != trav && gfn.Name() != "imageCopyBlob") {
-						return
-					}
-					d := core.CallArg(c, 4)
-					var vals []ssa.Value
-					for _, o := range core.Origins(d, core.SliceOpts{}) {
-						switch o.Kind {
-						case core.OCall:
-							if o.Call == g {
-								ok = true
-							}
-						default:
-							vals = append(vals, o.Val)
-						}
-					}
-					// values captured from the traversal: follow them in the parent
-					for _, fv := range lit.FreeVars {
-						b := core.FreeVarBinding(fv)
-						if b == nil {
-							continue
-						}
-						used := false
-						for _, o := range core.Origins(d, core.SliceOpts{}) {
-							if o.Val == ssa.Value(fv) || (o.Kind == core.OAlloc && o.Val == b) {
-								used = true
-							}
-							if u, isU := o.Val.(*ssa.UnOp); isU && u.X == ssa.Value(fv) {
-								used = true
-							}
-						}
-						if !used && !reachesValue(d, fv) {
-							continue
-						}
-						var srcs []ssa.Value
-						if al, isAl := b.(*ssa.Alloc); isAl {
-							for _, st := range core.StoresToCell(al) {
-								srcs = append(srcs, st.Val)
-							}
-						} else {
-							srcs = append(srcs, b)
-						}
-						for _, sv := range srcs {
-							for _, o := range core.Origins(sv, core.SliceOpts{FieldsThrough: true}) {
-								if o.Kind == core.OCall && o.Call == g {
-									ok = true
-								}
-							}
-						}
-					}
-					_ = vals
-				})
+		return forwardReaches(p, g, func(c ssa.CallInstruction, argIdx int) bool {
+			gfn := core.CalleeFn(c)
+			if gfn == nil || (gfn != trav && gfn.Name() != "imageCopyBlob") {
+				return false
 			}
-		}
-		return ok
+			return argIdx == 4
+		})
 	}
 	for _, g := range []string{"GetManifestList", "GetConfig", "GetLayers"} {
 		for _, c := range getterCalls(trav, g) {
@@ -191,13 +113,24 @@ func c03R1(p *core.Prog, r *core.Report, trav *ssa.Function) {
 	// referrers and digest tags
 	for _, m := range []string{"ReferrerList", "TagList"} {
 		var calls []*ssa.Call
-		core.Calls(trav, func(c ssa.CallInstruction) {
-			if cal := core.Callee(c); cal != nil && core.IsModMethod(cal, ".", "RegClient", m) {
-				if call, ok := c.(*ssa.Call); ok {
-					calls = append(calls, call)
+		// in the traversal, its literals (a lazily loaded list) or the unexported helpers they call
+		scope := map[*ssa.Function]bool{}
+		for _, f := range core.WithAnon(trav) {
+			for h := range core.Helpers(f, 1) {
+				for _, g := range core.WithAnon(h) {
+					scope[g] = true
 				}
 			}
-		})
+		}
+		for _, f := range sortedFuncs(scope) {
+			core.Calls(f, func(c ssa.CallInstruction) {
+				if cal := core.Callee(c); cal != nil && core.IsModMethod(cal, ".", "RegClient", m) {
+					if call, ok := c.(*ssa.Call); ok {
+						calls = append(calls, call)
+					}
+				}
+			})
+		}
 		if len(calls) == 0 {
 			r.Violated(rule, name, "copy consults "+m, p.Pos(trav.Pos()), m+" is never called: the option that asks for this content copies nothing")
 			continue
@@ -426,7 +359,25 @@ func c03R5(p *core.Prog, r *core.Report, rule string) {
 			r.MissingAnchor(rule, n+" traversal")
 			return
 		}
-		m, ok := mediaTypeSwitches(p, fn)
+		// the switch may have moved into an unexported helper called from the traversal or its literals
+		m, ok := map[string]bool{}, false
+		tops := map[*ssa.Function]bool{}
+		for _, f := range core.WithAnon(fn) {
+			for h := range core.Helpers(f, 2) {
+				for h.Parent() != nil {
+					h = h.Parent()
+				}
+				tops[h] = true
+			}
+		}
+		for _, h := range sortedFuncs(tops) {
+			if mm, found := mediaTypeSwitches(p, h); found {
+				ok = true
+				for k := range mm {
+					m[k] = true
+				}
+			}
+		}
 		if !ok {
 			r.Undecided(rule, p.FuncName(fn), "manifest media types", p.Pos(fn.Pos()), "no switch over a descriptor's MediaType with a manifest-handling case found")
 			return
